@@ -222,7 +222,7 @@ func solveAll(jobs []job, dir string, secs, par int) {
 			}
 			if r.result != "unsat" {
 				s2 := secs
-				if j.o.Cover && s2 > 3 {
+				if j.o.Cover && s2 > 3 && !strings.HasSuffix(j.o.Name, "#axioms-consistent") {
 					s2 = 3 // covers only guard against vacuity: `unsat` is the only answer that matters
 				}
 				r = solve(q, dir, fmt.Sprintf("%04d_%s", idx, j.o.Name), s2, "")
